@@ -27,7 +27,9 @@ RULE = ('vlib/loopgen.py: one transformation kind per case (idx%5: unroll, fusio
         'different loop variables, range(), insert-loc, collapse(2); fission = single/multiple/conditional/collapse(2) '
         'split points, scalars crossing the split promoted by pragma or automatically; interchange = rectangular 2/3 '
         'deep with order list, strided and descending (project_bounds off), triangular (on); split = split_loop with '
-        'any bounds/steps and block sizes, block_loop_arrays. idx%4==3: one hostile unit. Non-trivial = transformation '
+        'any bounds/steps and block sizes, block_loop_arrays. idx%4==3: one hostile unit (a constant zero-trip range '
+        'with |stop-start| < |step| drawn by the ordinary split generator is the split_empty_step hostile unit too). '
+        'Non-trivial = transformation '
         'changed the kernel text and original and transformed program ran clean with equal output; distinct = hash '
         'of kernel + options.')
 CASES = {'quick': 240, 'thorough': 3600}
